@@ -142,6 +142,15 @@ theorem faRun_append (s : FaSt) (a b : Seq) :
         | error e => rfl
         | ok p3 => obtain ⟨s3, r2⟩ := p3; simp
 
+theorem faRun_cons (s : FaSt) (c : UInt8) (t : Seq) :
+    faRun s (c :: t) =
+      match faStep s c with
+      | .error e => .error e
+      | .ok (s', r) =>
+        match faRun s' t with
+        | .error e => .error e
+        | .ok (s'', rs) => .ok (s'', r.toList ++ rs) := rfl
+
 theorem eol_cases {c : UInt8} (h : isEol c = true) : c = 10 ∨ c = 13 := by
   simpa [isEol] using h
 
